@@ -28,6 +28,14 @@ ZEnumNums == <<TEnumN(<<2, 5, 9>>, 3, FALSE), TEnumN(<<5, 2, 9>>, 3, FALSE), TEn
 ZChoiceTags == <<TChoiceT(<<I07, TBool>>, << <<2, 2>>, <<2, 5>> >>, 2, FALSE), TChoiceT(<<I07, TBool>>, << <<2, 5>>, <<2, 2>> >>, 2, FALSE),
                  TChoiceT(<<I07, TBool, TNull>>, << <<2, 0>>, <<1, 3>>, <<3, 1>> >>, 3, FALSE),
                  TChoiceT(<<I07, TBool, TNull, I07>>, << <<3, 1>>, <<1, 1>>, <<2, 7>>, <<2, 9>> >>, 2, TRUE)>>
+\* values of 64 bits: the out-of-root values of an extensible INTEGER with a negative bound (an i64 on the Rust side) and the
+\* values of an unconstrained INTEGER (a u64 there) around every octet boundary of the unconstrained form up to the type limits
+ZBigInts == <<TIntB(Rng(0 - 10, 10, TRUE)), TIntB(NoCon)>>
+BigFam == UNION {{BSub(BPow2(k), BOfInt(1)), BPow2(k), BNeg(BPow2(k)), BSub(BNeg(BPow2(k)), BOfInt(1))} : k \in {7, 15, 23, 31, 39, 47, 55, 62, 63}}
+          \cup {BOfInt(i) : i \in {0, 5, 10, 11, 0 - 10, 0 - 11}} \cup {U64Max}
+BigVals(con) == IF con.c = "none" THEN {x \in BigFam : InU64(x)} ELSE {x \in BigFam : InI64(x)}
+\* BIT STRING with named bits (16.2 / 16.3: trailing 0 bits are not transmitted)
+ZNamedBits == <<TBitsN(NoSz), TBitsN(Sz(0, 8, FALSE)), TBitsN(Sz(4, 8, FALSE))>>
 \* INTEGER (lb..MAX): semi-constrained whole numbers
 ZSemiInts == <<TInt(Semi(5)), TInt(Semi(0)), TInt(Semi(0 - 3))>>
 ZOcts  == [i \in 1..Len(Sizes) |-> TOct(Sizes[i])]
@@ -38,6 +46,9 @@ ZStrs  == [i \in 1..(Len(Charsets) * 5) |-> TStr(Charsets[((i - 1) \div 5) + 1],
 ListElems == <<I07, TBool, TInt(NoCon), TStr("ia5", NoSz), TOct(Sz(1, 4, FALSE)), TEnum(2, 1, TRUE)>>
 ZLists == [i \in 1..(Len(ListElems) * 5) |-> TSeqOf(ListElems[((i - 1) \div 5) + 1], Sizes[((i - 1) % 5) + 1])]
           \o <<TSeqOf(TSeqOf(I07, NoSz), NoSz), TSeqOf(TSeqOf(TBool, Sz(1, 2, TRUE)), Sz(0, 3, FALSE))>>
+          \* elements whose encoding is empty: the list is its length determinant and nothing else (also at the very end of a message)
+          \o <<TSeqOf(TNull, NoSz), TSeqOf(TInt(Rng(5, 5, FALSE)), NoSz), TSeqOf(TEnum(1, 0, FALSE), Sz(0, 3, FALSE)),
+               TSeq(<<Comp(I07, "man", <<>>), Comp(TSeqOf(TNull, NoSz), "man", <<>>)>>, 2, FALSE)>>
 
 \* ---- C03: every SEQUENCE shape with n <= N components --------------------
 Modes == <<"man", "opt", "def">>
@@ -148,7 +159,7 @@ MixType(q, d) ==
 NMix == IF N <= 3 THEN 60 ELSE 300
 ZMix == [q \in 1..NMix |-> MixType(q + 100, 0)]
 
-Zoo == ZInts \o <<TBool, TNull>> \o ZEnums \o ZOcts \o ZBits \o ZStrs \o ZLists \o ZShapes \o ZClassShapes \o ZChoices \o ZNested \o ZAlign \o ZOpen \o ZWide \o ZSemi \o ZEnumNums \o ZChoiceTags \o ZSemiInts \o ZMix \o ZBig
+Zoo == ZInts \o <<TBool, TNull>> \o ZEnums \o ZOcts \o ZBits \o ZStrs \o ZLists \o ZShapes \o ZClassShapes \o ZChoices \o ZNested \o ZAlign \o ZOpen \o ZWide \o ZSemi \o ZEnumNums \o ZChoiceTags \o ZSemiInts \o ZNamedBits \o ZBigInts \o ZMix \o ZBig
 IsBig(i) == i > Len(Zoo) - Len(ZBig)
 
 (***************************************************************************)
@@ -233,7 +244,7 @@ SeqVals(t) ==
 Rep(t) ==
   CASE t.k = "bool"   -> <<TRUE, FALSE>>
     [] t.k = "null"   -> <<0>>
-    [] t.k = "int"    -> IF t.con.c = "none" THEN <<3, 300>> ELSE IF t.con.c = "semi" THEN <<t.con.lb, t.con.lb + 300>>
+    [] t.k = "int"    -> IF "big" \in DOMAIN t THEN <<BOfInt(3), BPow2(62)>> ELSE IF t.con.c = "none" THEN <<3, 300>> ELSE IF t.con.c = "semi" THEN <<t.con.lb, t.con.lb + 300>>
                          ELSE IF t.con.lb = t.con.ub THEN <<t.con.lb>> ELSE <<t.con.lb + 1, t.con.ub>>
     [] t.k = "enum"   -> IF t.nroot + t.nadd = 1 THEN <<0>> ELSE <<t.nroot + t.nadd - 1, 0>>
     [] t.k \in {"oct", "bits", "str", "seqof"} ->
@@ -250,7 +261,9 @@ Rep(t) ==
 \*  - the alignment family: every BIT STRING length 17..33 (all ones) behind k bits
 Ascii(n) == [j \in 1..n |-> 97 + (j % 26)]
 ExtraVals(t) ==
-  CASE t.k \in {"oct", "bits", "seqof", "str"} /\ t.sz.c = "none" ->
+  CASE t.k = "bits" /\ "named" \in DOMAIN t ->
+         << <<1, 0, 1, 0, 0, 0>>, <<0, 0, 0, 0>>, <<1, 0, 0, 0, 0, 0, 0, 0>>, <<1, 1, 1, 1, 1>>, <<0, 0, 0, 0, 0, 1>>, <<1, 0>> >>
+    [] t.k \in {"oct", "bits", "seqof", "str"} /\ t.sz.c = "none" ->
          [j \in 1..3 |-> ListOfLen(t, 126 + j)]
          \o (IF t.k = "str" /\ t.cs = "utf8"
              THEN [j \in 1..8 |-> Ascii(58 + j) \o <<228, 97>>] \o [j \in 1..6 |-> Ascii(59 + j) \o <<8364>>]
@@ -269,7 +282,7 @@ ExtraVals(t) ==
 Values(t) ==
   CASE t.k = "bool"   -> <<TRUE, FALSE>>
     [] t.k = "null"   -> <<0>>
-    [] t.k = "int"    -> SetToSeq(IntVals(t.con))
+    [] t.k = "int"    -> IF "big" \in DOMAIN t THEN SetToSeq(BigVals(t.con)) ELSE SetToSeq(IntVals(t.con))
     [] t.k = "enum"   -> [j \in 1..(t.nroot + t.nadd) |-> j - 1]
     [] t.k \in {"oct", "bits", "seqof"} -> LET ls == SetToSeq(LenVals(t.sz)) IN [j \in 1..Len(ls) |-> ListOfLen(t, ls[j])]
     [] t.k = "str"    -> LET ls == SetToSeq(LenVals(t.sz))
